@@ -259,9 +259,26 @@ fn check_c18_inner(src: &str, imports: &Imports, intended: Option<&ast::Schema>,
     o.case(&format!("lex {}", d1), "ok");
     o.case(&format!("parse {}", hex(t1.as_bytes())), &format!("ok {}", d2));
     let g2 = diags(&p2);
-    if g1.sigs != g2.sigs {
-        let only1: Vec<_> = g1.sigs.iter().filter(|s| !g2.sigs.contains(s)).collect();
-        let only2: Vec<_> = g2.sigs.iter().filter(|s| !g1.sigs.contains(s)).collect();
+    // the `use a free id` hints are handed out in HashMap order (C17's finding): not a formatter matter
+    let stable = |v: &Vec<String>| -> Vec<String> {
+        let mut out: Vec<String> = v
+            .iter()
+            .map(|s| match s.find("free_id: ") {
+                Some(i) => {
+                    let rest = &s[i + 9..];
+                    let n = rest.chars().take_while(|c| c.is_ascii_digit()).count();
+                    format!("{}free_id: _{}", &s[..i], &rest[n..])
+                }
+                None => s.clone(),
+            })
+            .collect();
+        out.sort();
+        out
+    };
+    let (g1s, g2s) = (stable(&g1.sigs), stable(&g2.sigs));
+    if g1s != g2s {
+        let only1: Vec<_> = g1s.iter().filter(|s| !g2s.contains(s)).collect();
+        let only2: Vec<_> = g2s.iter().filter(|s| !g1s.contains(s)).collect();
         o.mon("diagnostics_differ_after_formatting", src, imports, &format!("only before: {:?}\nonly after: {:?}\n{}", only1, only2, t1));
     }
     match Formatter::new(&p2) {
